@@ -1,6 +1,7 @@
 /* Assumed contract of atexit(3): registers the handler (counted) and returns 0, or fails with non-zero. */
 #include <stdlib.h>
 unsigned g_atexit_calls;
+int __VERIFIER_nondet_int(void);
 int
 atexit(void (* f)(void))
 {
